@@ -294,9 +294,10 @@ struct TreeWorld : World {
             Bytes first; Bytes out;
             if (op.k == T_LOCKEDWALK) { InSutLock s; t->lock(t); }
             walk_failed = false;
+            bool unfinished_before_op = unfinished;      // a failed operation is rolled back in the model: so is this flag
             for (int i = 0; i < m; i++) {
                 Bytes cur = walk(x, newmem, -1, nullptr);
-                if (walk_failed) { if (op.k == T_LOCKEDWALK) { InSutLock s; t->unlock(t); } return R_fail(cur); }
+                if (walk_failed) { unfinished = unfinished_before_op; if (op.k == T_LOCKEDWALK) { InSutLock s; t->unlock(t); } return R_fail(cur); }
                 if (i == 0) first = cur;
                 else if (cur != first) { out = "DIFF@walk" + num(i + 1) + ":" + cur; break; }
             }
@@ -308,10 +309,11 @@ struct TreeWorld : World {
             bool stopped = false;
             walk_failed = false;
             Bytes cur;
+            bool unfinished_before_op = unfinished;
             for (int rep = 0; rep < std::max(1, op.b); rep++) {
                 stopped = false;
                 Bytes c2 = walk(x, (op.d & 1) && rep == 0, std::max(1, op.a), &stopped);
-                if (walk_failed) return R_fail(c2);
+                if (walk_failed) { unfinished = unfinished_before_op; return R_fail(c2); }
                 if (rep == 0) cur = c2;
                 else if (c2 != cur) { cur += "DIFF@abandoned-walk" + num(rep + 1) + ":" + c2; break; }
             }
